@@ -1265,6 +1265,25 @@ theorem sound_TRANSFER_TOKENS (env : Env) (st st' : List Val) (hw : StackWF st)
     · simp at hev
   · simp at hev
 
+theorem sound_CHECK_SIGNATURE (env : Env) (st st' : List Val) (hw : StackWF st)
+    (hev : Spec.step env .CHECK_SIGNATURE st = .ok st') :
+    StackWF st' ∧ Typing.step .CHECK_SIGNATURE (st.map typeOf) = some (.ok (st'.map typeOf)) := by
+  rcases st with _ | ⟨a, _ | ⟨b, _ | ⟨c, st⟩⟩⟩
+  · simp [Spec.step] at hev
+  · simp [Spec.step] at hev
+  · simp [Spec.step] at hev
+  rw [stackWF_cons, stackWF_cons, stackWF_cons] at hw
+  have hs : Spec.step env .CHECK_SIGNATURE (a :: b :: c :: st)
+      = (Spec.checkSignatureV env a b c).bind fun r => .ok (r :: st) := rfl
+  rw [hs] at hev
+  unfold Spec.checkSignatureV at hev
+  split at hev
+  · simp at hev; subst hev
+    refine ⟨?_, by simp [Typing.step, checkSignatureTy, typeOf]⟩
+    rw [stackWF_cons]
+    exact ⟨by simp [WF, HasTy, checkVal, typeOf], hw.2.2.2⟩
+  · simp at hev
+
 /-- PUSH and LAMBDA need the static check of their literal; every other rule without sub-programs is sound as is -/
 def isLiteral : Instr → Bool
   | .PUSH _ _ | .LAMBDA _ _ _ => true
@@ -1380,6 +1399,7 @@ theorem step_sound (env : Env) (i : Instr) (st st' : List Val) (hw : StackWF st)
   case SELF ep t =>
     simp [Spec.step] at hev; subst hev; simp [Typing.step, typeOf, stackWF_cons, hw, wf_contract]
   case TRANSFER_TOKENS => exact sound_TRANSFER_TOKENS env st st' hw hev
+  case CHECK_SIGNATURE => exact sound_CHECK_SIGNATURE env st st' hw hev
   case PACK =>
     exact sound_unop env st st' hw .PACK (Spec.unV env .PACK) (unTy .PACK) (fun _ _ => rfl) rfl
       (fun _ _ => rfl) (unV_sound env .PACK) hev
